@@ -58,54 +58,48 @@ Print Assumptions rtr_fragmentation_invariant.
    sum) and ce1a895 (label-stack bit count).  [p] is the build profile, [cd]
    any negotiated codec (any family set, add-path, AS width, extended message).
 
-   Full statements: the same with the real decoders of every family.  What is
-   proved (_partial): the framing, OPEN, UPDATE, NOTIFICATION, KEEPALIVE and
-   ROUTE-REFRESH paths and the IPv4/IPv6 unicast+multicast, labeled-unicast and
-   VPN NLRI decoders are modelled; the NLRI decoders of MUP, flowspec,
-   flowspec-VPN, BGP-LS, SR-policy, EVPN and RTC are an arbitrary function
-   [other] assumed to consume at least one byte per NLRI or fail (it cannot
-   panic: its result is an option).  That contract is exercised by fuzzing the
-   real decoders through the harness (gen/c03.py, kind 'fuzz'), not proved. *)
-Definition other_contract (other : N -> bool -> list N -> option (list N)) : Prop :=
-  forall f r c c', other f r c = Some c' -> len c' < len c.
+   Every NLRI family the crate can negotiate is modelled (Model/WireNlri.v):
+   IPv4/IPv6 unicast and multicast, labeled unicast, VPN, EVPN route types 1-5, RTC,
+   SR policy, MUP route types 1-4, the four flowspec families and BGP-LS (node, link,
+   prefix, SRv6-SID and unknown NLRI types with their descriptor TLVs).  The model
+   still takes a decoder [other] for families outside that list; no family reaches
+   it (Proofs/WireMsg.v try_parse_other), so the statements hold for every [other]
+   with no contract assumed - the former _partial suffix is gone. *)
 
-(* BGP: no receive-buffer content panics try_parse/parse_message, in debug or release arithmetic, under any codec (this covers every unwrap(), slice index and narrow subtraction of the modelled code, and the fuel of every loop). *)
-Theorem bgp_parse_no_panic_partial : forall other, other_contract other -> forall (p : profile) (cd : codec), never_panics (try_parse other p cd).
-Proof. exact C03_bgp_parse_no_panic. Qed.
-Check bgp_parse_no_panic_partial : forall other, other_contract other -> forall (p : profile) (cd : codec), never_panics (try_parse other p cd).
-Print Assumptions bgp_parse_no_panic_partial.
+(* BGP: no receive-buffer content panics try_parse/parse_message, in debug or release arithmetic, under any codec (every unwrap(), slice index, narrow subtraction and loop fuel of the modelled code, all NLRI families included). *)
+Theorem bgp_parse_no_panic : forall (other : N -> bool -> list N -> option (list N)) (p : profile) (cd : codec), never_panics (try_parse other p cd).
+Proof. exact C03_bgp_all_no_panic. Qed.
+Check bgp_parse_no_panic : forall (other : N -> bool -> list N -> option (list N)) (p : profile) (cd : codec), never_panics (try_parse other p cd).
+Print Assumptions bgp_parse_no_panic.
 
 (* BGP: a returned message took a non-empty prefix of the buffer away, so the drain loop of run_select cannot spin. *)
-Theorem bgp_parse_consumes_partial : forall other, other_contract other -> forall (p : profile) (cd : codec), consumes_input (try_parse other p cd).
-Proof. exact C03_bgp_parse_consumes. Qed.
-Check bgp_parse_consumes_partial : forall other, other_contract other -> forall (p : profile) (cd : codec), consumes_input (try_parse other p cd).
-Print Assumptions bgp_parse_consumes_partial.
+Theorem bgp_parse_consumes : forall (other : N -> bool -> list N -> option (list N)) (p : profile) (cd : codec), consumes_input (try_parse other p cd).
+Proof. exact C03_bgp_all_consumes. Qed.
+Check bgp_parse_consumes : forall (other : N -> bool -> list N -> option (list N)) (p : profile) (cd : codec), consumes_input (try_parse other p cd).
+Print Assumptions bgp_parse_consumes.
 
 (* BGP: once a header with an invalid length, or all the bytes its length announces, are buffered, the answer is a message or a NOTIFICATION, never "need more". *)
-Theorem bgp_complete_frame_decided_partial : forall other, other_contract other -> forall (p : profile) (cd : codec), complete_frame_decided (try_parse other p cd) (bgp_complete (max_len cd)).
-Proof. exact C03_bgp_complete_frame_decided. Qed.
-Check bgp_complete_frame_decided_partial : forall other, other_contract other -> forall (p : profile) (cd : codec), complete_frame_decided (try_parse other p cd) (bgp_complete (max_len cd)).
-Print Assumptions bgp_complete_frame_decided_partial.
+Theorem bgp_complete_frame_decided : forall (other : N -> bool -> list N -> option (list N)) (p : profile) (cd : codec), complete_frame_decided (try_parse other p cd) (bgp_complete (max_len cd)).
+Proof. exact C03_bgp_all_complete_frame_decided. Qed.
+Check bgp_complete_frame_decided : forall (other : N -> bool -> list N -> option (list N)) (p : profile) (cd : codec), complete_frame_decided (try_parse other p cd) (bgp_complete (max_len cd)).
+Print Assumptions bgp_complete_frame_decided.
 
-(* BGP: more bytes are requested only while the frame is incomplete. *)
-Theorem bgp_need_only_if_incomplete_partial : forall other, other_contract other -> forall (p : profile) (cd : codec), need_only_if_incomplete (try_parse other p cd) (bgp_complete (max_len cd)).
-Proof. exact C03_bgp_need_only_if_incomplete. Qed.
-Check bgp_need_only_if_incomplete_partial : forall other, other_contract other -> forall (p : profile) (cd : codec), need_only_if_incomplete (try_parse other p cd) (bgp_complete (max_len cd)).
-Print Assumptions bgp_need_only_if_incomplete_partial.
+(* BGP: more bytes are requested only while the frame is incomplete (and the buffer is left as it was). *)
+Theorem bgp_need_only_if_incomplete : forall (other : N -> bool -> list N -> option (list N)) (p : profile) (cd : codec), need_only_if_incomplete (try_parse other p cd) (bgp_complete (max_len cd)).
+Proof. exact C03_bgp_all_need_only_if_incomplete. Qed.
+Check bgp_need_only_if_incomplete : forall (other : N -> bool -> list N -> option (list N)) (p : profile) (cd : codec), need_only_if_incomplete (try_parse other p cd) (bgp_complete (max_len cd)).
+Print Assumptions bgp_need_only_if_incomplete.
 
 (* BGP: any two fragmentations of the same byte stream deliver the same messages and the same final NOTIFICATION, with no spin and within the driver bound. *)
-Theorem bgp_fragmentation_invariant_partial : forall other, other_contract other -> forall (p : profile) (cd : codec), fragmentation_invariant (try_parse other p cd).
-Proof. exact C03_bgp_fragmentation_invariant. Qed.
-Check bgp_fragmentation_invariant_partial : forall other, other_contract other -> forall (p : profile) (cd : codec), fragmentation_invariant (try_parse other p cd).
-Print Assumptions bgp_fragmentation_invariant_partial.
+Theorem bgp_fragmentation_invariant : forall (other : N -> bool -> list N -> option (list N)) (p : profile) (cd : codec), fragmentation_invariant (try_parse other p cd).
+Proof. exact C03_bgp_all_fragmentation_invariant. Qed.
+Check bgp_fragmentation_invariant : forall (other : N -> bool -> list N -> option (list N)) (p : profile) (cd : codec), fragmentation_invariant (try_parse other p cd).
+Print Assumptions bgp_fragmentation_invariant.
 
-(* BGP: every error result of try_parse carries a (code, subcode) of the table of RFC 4271 section 6 /
-   RFC 7606 / RFC 7313 codes the receive path may answer with (Spec/WireSpec.v notification_allowed). *)
-Theorem bgp_errors_are_notifications_partial :
-  forall (other : N -> bool -> list N -> option (list N)) (p : profile) (cd : codec) (src : list N) (e : notif) (rest : list N),
+(* BGP: every error result of try_parse carries a (code, subcode) of the table of RFC 4271 section 6 / RFC 7606 / RFC 7313 codes the receive path may answer with (Spec/WireSpec.v notification_allowed). *)
+Theorem bgp_errors_are_notifications : forall (other : N -> bool -> list N -> option (list N)) (p : profile) (cd : codec) (src : list N) (e : notif) (rest : list N),
     try_parse other p cd src = DErr e rest -> notification_allowed (n_code e) (n_sub e) = true.
 Proof. exact C03_bgp_errors_are_notifications. Qed.
-Check bgp_errors_are_notifications_partial :
-  forall (other : N -> bool -> list N -> option (list N)) (p : profile) (cd : codec) (src : list N) (e : notif) (rest : list N),
+Check bgp_errors_are_notifications : forall (other : N -> bool -> list N -> option (list N)) (p : profile) (cd : codec) (src : list N) (e : notif) (rest : list N),
     try_parse other p cd src = DErr e rest -> notification_allowed (n_code e) (n_sub e) = true.
-Print Assumptions bgp_errors_are_notifications_partial.
+Print Assumptions bgp_errors_are_notifications.
